@@ -16,6 +16,18 @@ import uuid
 import numpy as np
 
 
+
+def _scratch_base():
+    """every scratch file of this run lives below one directory that is removed at exit"""
+    import atexit
+    import shutil
+    base = tempfile.mkdtemp(prefix="nixverif_tmp_")
+    tempfile.tempdir = base
+    atexit.register(shutil.rmtree, base, True)
+
+
+_scratch_base()
+
 def newfile(**kw):
     import nixio
     d = tempfile.mkdtemp(prefix="probe_")
